@@ -136,7 +136,7 @@ fn main() {
                     trace: Some(Vec::new()),
                     ..Default::default()
                 };
-                let vs = check.execute(&scenario, &mut st);
+                let vs = engine::exec(check.as_ref(), &scenario, &mut st);
                 let _ = tx.send((vs, st));
             });
             let (vs, st) = match rx.recv_timeout(std::time::Duration::from_secs(62)) {
